@@ -306,10 +306,10 @@ func canonRawControl(c *Node) (string, bool) {
 // mux
 
 type regSpec struct {
-	kind                string
-	h                   int // -1 = nil handler
-	base, filter, name  string
-	scope               int64
+	kind               string
+	h                  int // -1 = nil handler
+	base, filter, name string
+	scope              int64
 }
 
 func parseRegs(t *Toks) []regSpec {
